@@ -57,6 +57,7 @@ class Deployer : public Messenger {
   bool HasPendingTasks();
 
   bool Run();
+  bool FinishWork();
   bool StartWork(bool maintenance_mode = false);
   bool StartMaintenance();
   bool IsWorking();
@@ -71,6 +72,9 @@ class Deployer : public Messenger {
   std::queue<of<DeploymentTask>> pending_tasks_;
   std::mutex mutex_;
   std::future<void> work_;
+  // set by StartWork, cleared by the work thread when it finds the task queue
+  // empty for the last time. guarded by mutex_.
+  bool working_ = false;
   bool maintenance_mode_ = false;
 };
 
